@@ -10,8 +10,10 @@ import "sync/atomic"
 // step of its own.
 
 type vhShared struct {
-	m    Mutex
-	inCS int32
+	m        Mutex
+	inCS     int32
+	finished int32 // ghost: threads that have completed all their rounds
+	bad      int32 // ghost: an obligation checked inside a thread failed
 }
 
 func vh_tm_setup() *vhShared {
@@ -20,24 +22,37 @@ func vh_tm_setup() *vhShared {
 	return s
 }
 
-func vh_tm_thread(s *vhShared, tid int, choice int) {
-	rounds := vparam("rounds", 1)
+// one thread: `rounds` rounds of Lock;cs;Unlock (choice bit 0) or TryLock?{cs;Unlock} (bit 1)
+func vh_tm_run(s *vhShared, rounds int, choice int) {
 	for r := 0; r < rounds; r++ {
 		if (choice>>uint(r))&1 == 0 {
 			s.m.Lock()
-			atomic.AddInt32(&s.inCS, 1)
-			atomic.AddInt32(&s.inCS, -1)
+			s.inCS++                     // ghost, same step as the acquiring operation
+			atomic.AddInt32(&s.inCS, -1) // the critical section is a step of its own
 			s.m.Unlock()
-		} else if s.m.TryLock() {
-			atomic.AddInt32(&s.inCS, 1)
-			atomic.AddInt32(&s.inCS, -1)
-			s.m.Unlock()
+		} else {
+			// "succeeds whenever the mutex is free and nobody else is contending": once every
+			// other thread has finished (a stable fact) the mutex is free, so TryLock must succeed
+			// (read by an atomic load so that it is a scheduler step of its own, taken right before TryLock)
+			alone := atomic.LoadInt32(&s.finished) == int32(vparam("threads", 2)-1)
+			if s.m.TryLock() {
+				s.inCS++
+				atomic.AddInt32(&s.inCS, -1)
+				s.m.Unlock()
+			} else if alone {
+				s.bad = 1
+			}
 		}
 	}
+	s.finished++
 }
 
-// mutual exclusion: never two threads inside the critical section
-func vh_tm_safe(s *vhShared) bool { return s.inCS <= 1 }
+func vh_tm_thread(s *vhShared, tid int, choice int)   { vh_tm_run(s, vparam("rounds", 1), choice) }
+func vh_tm_thread_a(s *vhShared, tid int, choice int) { vh_tm_run(s, vparam("rounds_a", 2), choice) }
+func vh_tm_thread_b(s *vhShared, tid int, choice int) { vh_tm_run(s, vparam("rounds_b", 1), choice) }
+
+// mutual exclusion: never two threads inside the critical section; TryLock never fails alone
+func vh_tm_safe(s *vhShared) bool { return vand(s.inCS <= 1, s.bad == 0) }
 
 // at the end the mutex is free again
 func vh_tm_final(s *vhShared) bool { return vand(s.m.v == 1, s.inCS == 0) }
